@@ -327,6 +327,7 @@ func registerModels(ex *Exec) {
 	}
 	registerHashModels(ex)
 	registerBigModels(ex)
+	registerSignedBigModels(ex)
 	registerMiscModels(ex)
 }
 
